@@ -8,7 +8,7 @@ from ..core import H, stream, compile_source, digest, split_sections
 from ..harness import Result
 from ..runlib import run_once, outcome_key, typed_prints, first_diff
 from ..gen import const_program
-from ..ast import to_text
+from ..qast import to_text
 from .. import scen
 from ..minimise import minimise_scenario
 
